@@ -1091,6 +1091,7 @@ def dispatch_stage(c):
                 spl = Spline1D(b)
                 spl.coeffs[:] = [float(qparse(a)) for a in c['coeffs']]
                 kc['coeffs'] = c['coeffs']
+            co0 = None if form.startswith('BSplines[i]') else np.array(spl.coeffs, copy=True)
             if form.endswith('scalar') or form.endswith('complex'):
                 v = spl.eval(float(xs[0]), der[0])
                 kc['ep'] = fam + '_eval_spline_1d_scalar'
@@ -1098,6 +1099,8 @@ def dispatch_stage(c):
                     v = complex(v)
                     k1 = dict(kc, coeffs=c['coeffs'], dispatch_out=[v.real], part='re')
                     k2 = dict(kc, coeffs=c['coeffs_im'], dispatch_out=[v.imag], part='im')
+                    if not np.array_equal(np.asarray(spl.coeffs), co0):
+                        return {'bad': '%s modified the coefficients of the spline it evaluates' % form}
                     return {'kcs': [k1, k2]}
                 kc['dispatch_out'] = [float(v)]
             elif form.endswith('array'):
@@ -1111,6 +1114,8 @@ def dispatch_stage(c):
                 kc['dispatch_out'] = [float(t) for t in y]
             if not np.array_equal(xs, xs0):
                 return {'bad': '%s (%s arrays) modified the array of evaluation points' % (form, storage)}
+            if co0 is not None and not np.array_equal(np.asarray(spl.coeffs), co0):
+                return {'bad': '%s modified the coefficients of the spline it evaluates' % form}
             return {'kcs': [kc]}
         ys = _stored([float(qparse(q)) for q in c['y']], storage)
         ys0 = ys.copy()
@@ -1118,6 +1123,7 @@ def dispatch_stage(c):
         nc = c['ncols']
         fl = [float(qparse(a)) for a in c['coeffs']]
         spl.coeffs[:, :] = np.array(fl).reshape((-1, nc))
+        co0 = np.array(spl.coeffs, copy=True)
         kc.update(y=c['y'], coeffs=c['coeffs'], ncols=nc)
         if form.endswith('scalar'):
             v = spl.eval(float(xs[0]), float(ys[0]), der[0], der[1])
@@ -1134,6 +1140,9 @@ def dispatch_stage(c):
             kc['dispatch_out'] = [float(t) for t in z.ravel()]
         if not (np.array_equal(xs, xs0) and np.array_equal(ys, ys0)):
             return {'bad': '%s (%s arrays) modified the arrays of evaluation points' % (form, storage)}
+        if not np.array_equal(np.asarray(spl.coeffs), co0):
+            return {'bad': '%s modified the coefficients of the spline it evaluates (max change %.3g): every later evaluation of the object is wrong'
+                    % (form, float(np.abs(np.asarray(spl.coeffs) - co0).max()))}
         return {'kcs': [kc]}
 
 
